@@ -772,6 +772,7 @@ pub fn families(tier: &str) -> Vec<Box<dyn Family>> {
     let mut v: Vec<Box<dyn Family>> = fams.into_iter().map(|f| Box::new(f) as Box<dyn Family>).collect();
     v.push(Box::new(SameExecutableTwice));
     v.push(Box::new(WriteFailsForOneTarget));
+    v.push(Box::new(TargetsBehindLinks));
     v
 }
 
@@ -894,23 +895,23 @@ impl SameExecutableTwice {
 pub struct WriteFailsForOneTarget;
 impl Family for WriteFailsForOneTarget {
     fn name(&self) -> String {
-        "write-fails-for-one-file/a healthy reply of three files whose middle target cannot be written (a link to /dev/full: created, then no space; an existing directory; a link to a missing directory) x with / without -O x alone / before / after a second healthy generator: the failure is reported with the path, the exit status is non-zero, every other file is written".into()
+        "write-fails-for-one-file/a healthy reply of three files whose middle target cannot be written (a link to /dev/full: created, then no space; an existing directory; a link to a missing directory; an existing named pipe that nobody reads) x with / without -O x alone / before / after a second healthy generator: the failure is reported with the path, the exit status is non-zero, every other file is written".into()
     }
     fn len(&self) -> u64 {
-        3 * 2 * 3
+        4 * 2 * 3
     }
     fn hang_secs(&self) -> f64 {
         60.0
     }
     fn describe(&self, idx: u64) -> Value {
-        let obstacle = ["link to /dev/full", "existing directory", "link into a missing directory"][(idx % 3) as usize];
-        let neighbour = ["none", "before", "after"][(idx / 6) as usize];
-        json!({"obstacle": obstacle, "dash_O": (idx / 3) % 2 == 1, "neighbour": neighbour})
+        let obstacle = ["link to /dev/full", "existing directory", "link into a missing directory", "existing named pipe"][(idx % 4) as usize];
+        let neighbour = ["none", "before", "after"][(idx / 8) as usize];
+        json!({"obstacle": obstacle, "dash_O": (idx / 4) % 2 == 1, "neighbour": neighbour})
     }
     fn run(&self, idx: u64) -> CaseOut {
-        let obstacle = idx % 3;
-        let dash_o = (idx / 3) % 2 == 1;
-        let neighbour = idx / 6;
+        let obstacle = idx % 4;
+        let dash_o = (idx / 4) % 2 == 1;
+        let neighbour = idx / 8;
         let mut out = CaseOut::new(hash_str(&format!("wf{idx}")));
         out.validated = 1;
         out.nontrivial = true;
@@ -927,7 +928,8 @@ impl Family for WriteFailsForOneTarget {
             match obstacle {
                 0 => Node::Symlink("/dev/full".into()),
                 1 => Node::Dir,
-                _ => Node::Symlink("no-such-directory/target.txt".into()),
+                2 => Node::Symlink("no-such-directory/target.txt".into()),
+                _ => Node::Fifo,
             },
         ));
         let healthy = |files: &[RFile]| Install::Script(Script(vec![Step::ReadAll, Step::Stdout(proc::encode_reply(files, &[])), Step::Exit(0)]));
@@ -978,6 +980,107 @@ impl Family for WriteFailsForOneTarget {
             }
         }
         out.class = format!("obstacle{obstacle}:exit{:?}:{}errors", obs.exit_code, errors.len());
+        out
+    }
+}
+
+// ------------------------------------------------------------------------------------------------------------
+// Existing files that are reached through a symbolic link (a generated file shared by two projects, an output tree
+// that a build system populates with links into its cache): "already identical" and "left untouched" are about the
+// file the path leads to.
+
+pub struct TargetsBehindLinks;
+impl Family for TargetsBehindLinks {
+    fn name(&self) -> String {
+        "targets-behind-links/a healthy reply of three files; the middle path exists as a symbolic link to a regular file elsewhere (identical / different contents of the same length / different length; relative link / link chain of two) x with / without -O x alone / after a second healthy generator: an identical file is left untouched (inode, mtime, bytes), a different one holds the new bytes afterwards, nothing is reported, exit status 0".into()
+    }
+    fn len(&self) -> u64 {
+        3 * 2 * 2 * 2
+    }
+    fn hang_secs(&self) -> f64 {
+        60.0
+    }
+    fn describe(&self, idx: u64) -> Value {
+        let existing = ["identical", "different, same length", "different length"][(idx % 3) as usize];
+        let link = ["shared.txt -> common/shared.txt", "a chain of two links"][((idx / 3) % 2) as usize];
+        json!({"existing_contents": existing, "link": link, "dash_O": (idx / 6) % 2 == 1, "second_generator": idx / 12 == 1})
+    }
+    fn run(&self, idx: u64) -> CaseOut {
+        let existing = idx % 3;
+        let chain = (idx / 3) % 2 == 1;
+        let dash_o = (idx / 6) % 2 == 1;
+        let second = idx / 12 == 1;
+        let mut out = CaseOut::new(hash_str(&format!("tbl{idx}")));
+        out.validated = 1;
+        out.nontrivial = true;
+        let dir = if dash_o { "out/" } else { "" };
+        let new_bytes = "SHARED-1\n";
+        let files = vec![proc::rfile("first.txt", "first\n"), proc::rfile("shared.txt", new_bytes), proc::rfile("last.txt", "last\n")];
+        let mut sc = Scenario::default();
+        sc.tree.push(("a.slice".into(), Node::File(SMALL_INPUT.as_bytes().to_vec())));
+        if dash_o {
+            sc.tree.push(("out".into(), Node::Dir));
+        }
+        let old_bytes = match existing {
+            0 => new_bytes,
+            1 => "SHARED-0\n",
+            _ => "an older, longer version\n",
+        };
+        sc.tree.push(("common/shared.txt".into(), Node::File(old_bytes.as_bytes().to_vec())));
+        let up = if dash_o { "../" } else { "" };
+        if chain {
+            sc.tree.push(("common/hop.txt".into(), Node::Symlink("shared.txt".into())));
+            sc.tree.push((format!("{dir}shared.txt"), Node::Symlink(format!("{up}common/hop.txt"))));
+        } else {
+            sc.tree.push((format!("{dir}shared.txt"), Node::Symlink(format!("{up}common/shared.txt"))));
+        }
+        let healthy = |files: &[RFile]| Install::Script(Script(vec![Step::ReadAll, Step::Stdout(proc::encode_reply(files, &[])), Step::Exit(0)]));
+        sc.argv = vec!["a.slice".into()];
+        sc.gens.push(Gen { name: "writer".into(), install: healthy(&files) });
+        sc.argv.extend(["-G".to_string(), "{gen0}".to_string()]);
+        if second {
+            sc.gens.push(Gen { name: "other".into(), install: healthy(&[proc::rfile("other.txt", "from the other generator\n")]) });
+            sc.argv.extend(["-G".to_string(), "{gen1}".to_string()]);
+        }
+        if dash_o {
+            sc.argv.extend(["-O".to_string(), "out".to_string()]);
+        }
+        let obs = proc::run(&sc, Duration::from_secs(20));
+        let ctx = || format!("argv {:?}; exit {:?}; stderr {}; paths after: {:?}", obs.argv, obs.exit_code, truncate(&proc::show_bytes(&obs.stderr), 500), obs.after.keys().collect::<Vec<_>>());
+        if obs.timed_out || obs.signal.is_some() || obs.panic_location().is_some() {
+            out.violate("c18/targets-behind-links/crash-or-hang", ctx());
+            return out;
+        }
+        if obs.exit_code != Some(0) || !obs.error_lines().is_empty() {
+            out.violate("c18/targets-behind-links/healthy-reply-reported-as-failure", ctx());
+        }
+        let (b, a) = (obs.before.get("common/shared.txt"), obs.after.get("common/shared.txt"));
+        let link_path = format!("{dir}shared.txt");
+        // the bytes the generated path leads to afterwards: through the link if it is still one, else the file there
+        let reached: Option<Vec<u8>> = match obs.after.get(&link_path) {
+            Some(e) if e.kind == Kind::Symlink => a.map(|x| x.contents.clone()),
+            Some(e) => Some(e.contents.clone()),
+            None => None,
+        };
+        if reached.as_deref() != Some(new_bytes.as_bytes()) {
+            out.violate("c18/targets-behind-links/path-does-not-hold-the-generated-bytes", format!("{link_path} must lead to the bytes its generator sent; it leads to {:?}. {}", reached.as_ref().map(|r| proc::show_bytes(r)), ctx()));
+        }
+        if existing == 0 {
+            match (b, a) {
+                (Some(b), Some(a)) if a.inode == b.inode && a.mtime_ns == b.mtime_ns && a.contents == b.contents => {}
+                _ => out.violate("c18/targets-behind-links/identical-file-touched", format!("common/shared.txt already held the generated bytes and must be left untouched (inode, mtime, bytes): before {:?}, after {:?}. {}", b.map(|e| (e.inode, e.mtime_ns)), a.map(|e| (e.inode, e.mtime_ns)), ctx())),
+            }
+            if !obs.after.get(&link_path).is_some_and(|e| e.kind == Kind::Symlink) {
+                out.violate("c18/targets-behind-links/identical-file-touched", format!("{link_path} was a link to an identical file and must be left as it is. {}", ctx()));
+            }
+        }
+        for (name, contents) in [("first.txt", "first\n"), ("last.txt", "last\n")].into_iter().chain(second.then_some(("other.txt", "from the other generator\n"))) {
+            let p = format!("{dir}{name}");
+            if obs.after.get(&p).map(|e| e.contents.as_slice()) != Some(contents.as_bytes()) {
+                out.violate("c18/targets-behind-links/other-file-not-written", format!("{p} must hold the bytes its generator sent. {}", ctx()));
+            }
+        }
+        out.class = format!("existing{existing}:chain{chain}:exit{:?}", obs.exit_code);
         out
     }
 }
